@@ -30,11 +30,13 @@ import (
 )
 
 var waitExec = map[string]h.ExecFn{
-	"wait.script":         exWaitScript,
-	"go.wait.script":      goWaitScript,
-	"go.wait.adv.cancel":  goAdvCancel,
-	"go.wait.adv.publish": goAdvPublish,
-	"go.wait.adv.random":  goAdvRandom,
+	"wait.script":           exWaitScript,
+	"go.wait.script":        goWaitScript,
+	"go.wait.adv.cancel":    goAdvCancel,
+	"go.wait.adv.publish":   goAdvPublish,
+	"go.wait.adv.random":    goAdvRandom,
+	"go.wait.adv.subscribe": goAdvSubscribe,
+	"go.wait.adv.queue":     goAdvQueue,
 }
 
 const (
@@ -71,7 +73,7 @@ type waiter struct {
 	ctx      *waitCtx
 	target   uint32
 	short    bool
-	parked   bool // held at the entry of its select by the script (w:i:t:P until r:i)
+	parked   bool   // held at the entry of its select by the script (w:i:t:P until r:i)
 	wid      uint64 // its wait-list id, 0 when subscribe short-circuited
 	xdone    bool   // its x step (wait for the short timer) has been executed
 	returned atomic.Bool
@@ -986,6 +988,188 @@ func goAdvRandom(a []string) string {
 	return "ok"
 }
 
+// go.wait.adv.subscribe <waiters> <mode>: no lost wake-up around subscribe. mode "during": every waiter that is
+// inside subscribe is parked right after it has read the (old) head of the best member and before it acts on it;
+// the head that reaches the target is published and Run is given the time to process it; then the waiters are
+// released. On the correct code the check and the registration are ONE critical section under the write lock:
+// notifySubscribers waits for it and then finds the channel. Modes "before" / "after": the head is published just
+// before the waiters arrive / just after they have registered. Nothing else is ever published: every waiter must
+// return success (no timer is involved: they wait with a one-hour timeout under the load-aware watchdog).
+func goAdvSubscribe(a []string) string {
+	k, mode := atoi(a[0]), a[1]
+	e := newEnv(pool.BestPingStrategy, []uint32{5}, 0)
+	defer e.close()
+	const target = 6
+	var armed atomic.Bool
+	parked := make(chan struct{}, 64)
+	release := make(chan struct{})
+	e.vs[0].VerifSetGate(func(point string, id int) {
+		if point == "id" {
+			e.idCalls.Add(1)
+		}
+		if point == "head.done" && armed.Load() {
+			parked <- struct{}{}
+			<-release
+		}
+	})
+	publish := func() string {
+		if !guarded(func() { e.vs[0].SetMasterHead(pool.VerifHead(target)) }) {
+			return "FAIL hang SetMasterHead blocked; goroutines: " + poolGoroutines()
+		}
+		if !await(func() bool { return e.p.VerifUpdatesPending() == 0 }) {
+			return "FAIL hang update not taken by Run; goroutines: " + poolGoroutines()
+		}
+		return ""
+	}
+	start := func() {
+		for i := 0; i < k; i++ {
+			w := &waiter{ctx: newWaitCtx(), target: target}
+			e.ws[i] = w
+			go func() {
+				w.err = e.p.WaitMasterchainSeqno(w.ctx, target, longTimeout)
+				w.returned.Store(true)
+			}()
+		}
+	}
+	switch mode {
+	case "before":
+		if r := publish(); r != "" {
+			return r
+		}
+		start()
+	case "after":
+		start()
+		if !await(func() bool { return e.p.VerifWaitListLen() == k }) {
+			return "FAIL rule waiters did not register; goroutines: " + poolGoroutines()
+		}
+		if r := publish(); r != "" {
+			return r
+		}
+	case "during":
+		armed.Store(true)
+		start()
+		if !awaitChan(parked) {
+			return "FAIL hang no waiter reached MasterHead() in subscribe; goroutines: " + poolGoroutines()
+		}
+		time.Sleep(500 * time.Microsecond) // further waiters reach the gate or queue up on the pool lock
+		if r := publish(); r != "" {
+			armed.Store(false)
+			close(release)
+			return r
+		}
+		// Run has taken the update: it is inside notifySubscribers (or waiting for the pool lock)
+		time.Sleep(time.Millisecond)
+		armed.Store(false)
+		close(release)
+	default:
+		return "bad-op"
+	}
+	for i := 0; i < k; i++ {
+		w := e.ws[i]
+		if !await(func() bool { return w.returned.Load() }) {
+			return fmt.Sprintf("FAIL lost-wakeup mode=%s waiter %d of %d still waits for seqno %d although the best connection reported it (head=%d, waitlist=%d, unread=%d); goroutines: %s",
+				mode, i, k, target, e.vs[0].VerifHeadSeqno(), e.p.VerifWaitListLen(), e.p.VerifUnreadHeads(), poolGoroutines())
+		}
+		if w.err != nil {
+			return fmt.Sprintf("FAIL rule mode=%s waiter %d failed: %v", mode, i, w.err)
+		}
+	}
+	if !guarded(func() { e.p.ConnectionsNumber(); e.p.Status() }) {
+		return "FAIL hang pool lock not available; goroutines: " + poolGoroutines()
+	}
+	if n := e.p.VerifWaitListLen(); n != 0 {
+		return fmt.Sprintf("FAIL rule wait list holds %d entries after every waiter returned", n)
+	}
+	return "ok"
+}
+
+// go.wait.adv.queue <extra> <mode>: every accepted head is published. A waiter subscribes for seqno cap+extra; then
+// cap+extra heads 1..cap+extra are stored on the best member by one caller while Run cannot receive (mode "late":
+// Run is started only afterwards; mode "busy": Run is parked inside updateBest). Only the LAST head reaches the
+// target. The channel holds cap of them; the correct SetMasterHead blocks (without holding a lock) until Run
+// drains. Then Run is let go: all publications must complete and the waiter must return success.
+func goAdvQueue(a []string) string {
+	extra, mode := atoi(a[0]), a[1]
+	markLineStart()
+	p, vs := pool.VerifNewPool(pool.BestPingStrategy, 1)
+	vs[0].VerifSetAlive(true)
+	p.VerifSetBest(vs[0])
+	n := p.VerifUpdatesCap() + extra
+	ctx, stop := context.WithCancel(context.Background())
+	defer stop()
+	var armed atomic.Bool
+	parked := make(chan struct{}, 1)
+	release := make(chan struct{})
+	w := &waiter{ctx: newWaitCtx(), target: uint32(n)}
+	defer w.ctx.cancel()
+	startWaiter := func() bool {
+		go func() {
+			w.err = p.WaitMasterchainSeqno(w.ctx, w.target, longTimeout)
+			w.returned.Store(true)
+		}()
+		return await(func() bool { return p.VerifWaitListLen() == 1 })
+	}
+	switch mode {
+	case "late":
+		p.VerifSetInterval(time.Hour)
+		if !startWaiter() {
+			return "FAIL rule waiter did not register; goroutines: " + poolGoroutines()
+		}
+	case "busy":
+		p.VerifSetInterval(time.Hour)
+		if !startWaiter() {
+			return "FAIL rule waiter did not register; goroutines: " + poolGoroutines()
+		}
+		// hold Run inside updateBest: a second pool goroutine is not needed, the real ticker does it
+		p.VerifSetInterval(time.Millisecond)
+		armed.Store(true)
+		vs[0].VerifSetGate(func(point string, id int) {
+			if point == "head" && armed.CompareAndSwap(true, false) {
+				parked <- struct{}{}
+				<-release
+			}
+		})
+		go p.Run(ctx)
+		if !awaitChan(parked) {
+			close(release)
+			return "FAIL hang Run never reached updateBest"
+		}
+	default:
+		return "bad-op"
+	}
+	var stored atomic.Int64
+	go func() {
+		for q := 1; q <= n; q++ {
+			vs[0].SetMasterHead(pool.VerifHead(uint32(q)))
+			stored.Add(1)
+		}
+	}()
+	// the caller fills the channel; with more heads than capacity it now waits for Run
+	waitUntil(200*time.Millisecond, func() bool {
+		return int(stored.Load()) == n || p.VerifUpdatesPending() == p.VerifUpdatesCap()
+	})
+	time.Sleep(time.Millisecond)
+	if mode == "late" {
+		go p.Run(ctx)
+	} else {
+		close(release)
+	}
+	if !await(func() bool { return int(stored.Load()) == n && p.VerifUpdatesPending() == 0 }) {
+		return fmt.Sprintf("FAIL hang stored=%d/%d pending=%d; goroutines: %s", stored.Load(), n, p.VerifUpdatesPending(), poolGoroutines())
+	}
+	if !await(func() bool { return w.returned.Load() }) {
+		return fmt.Sprintf("FAIL dropped-update mode=%s the best connection stored head %d (= the awaited seqno) and Run has drained the channel, yet the waiter still waits (waitlist=%d, unread=%d): an accepted head was never published; goroutines: %s",
+			mode, vs[0].VerifHeadSeqno(), p.VerifWaitListLen(), p.VerifUnreadHeads(), poolGoroutines())
+	}
+	if w.err != nil {
+		return fmt.Sprintf("FAIL rule waiter failed: %v", w.err)
+	}
+	if !guarded(func() { p.ConnectionsNumber(); p.Status() }) {
+		return "FAIL hang pool lock not available; goroutines: " + poolGoroutines()
+	}
+	return "ok"
+}
+
 // ------------------------------------------------------------------------------------------------ generator
 
 func genWait(g *h.G, out func(op string, args ...string)) {
@@ -1103,6 +1287,12 @@ func genWait(g *h.G, out func(op string, args ...string)) {
 	}
 	for k := 0; k < g.Scale(3, 12); k++ {
 		out("go.wait.adv.publish", fmt.Sprint(k%4))
+	}
+	for k := 0; k < g.Scale(8, 60); k++ {
+		for _, mode := range []string{"during", "before", "after"} {
+			out("go.wait.adv.subscribe", fmt.Sprint(1+k%4), mode)
+		}
+		out("go.wait.adv.queue", fmt.Sprint(1+k%5), []string{"late", "busy"}[k%2])
 	}
 	for k := 0; k < g.Scale(400, 6000); k++ {
 		out("go.wait.adv.random", fmt.Sprint(g.Rng.Intn(1<<30)), fmt.Sprint(20+g.Rng.Intn(80)))
